@@ -1070,6 +1070,9 @@ def _component_mix(S, c, all_comp):
             return nm[-1].rsplit("::", 1)[-1] in _XOR_OK_CALLS or _xor_combinator(fg, nm[0])
         return False
 
+    import r1 as _r1
+    msg_tys = [(_r1.validated_types(s_)[1] or "") for s_ in S.recv_sites if set(s_.label or []) & c.labels]
+
     def leaves(operand):
         if operand["k"] == "const":
             return {}
@@ -1077,7 +1080,11 @@ def _component_mix(S, c, all_comp):
         out = {}
         for n in sl:
             if n in all_comp and n[2] is None and b.locals[n[1]]["name"] and (S.labels_of(n) & c.labels):
-                out[b.locals[n[1]]["name"]] = b.locals[n[1]]["ty"].lstrip("&")
+                ty = _r1.norm_ty(b.locals[n[1]]["ty"])
+                # a part of the message has a type that occurs in the message (own values that merely travel in one
+                # tuple with message parts - the items of a zip - do not)
+                if ty != "bool" and any(ty and ty in mt for mt in msg_tys):
+                    out[b.locals[n[1]]["name"]] = ty
         return out
     # the compared scalars
     ops = []
